@@ -105,8 +105,22 @@ Proof.
   t2_open code_InterfacePayload_getVendorDataLength; (unfold penv; t2_solve Hd).
 Qed.
 
-(* InterfacePayload::getVendorData is translated as well (GenCode.code_InterfacePayload_getVendorData); its refinement theorem is not
-   proved yet: the generic tactic stops at two reads of the same length word whose offsets are written differently. *)
+(* two reads of the same 16-bit word at offsets that are written differently (38 + c and 38 + (c + c mod 2) mod 65536 when c is even ...) *)
+Ltac same_word :=
+  repeat match goal with x := _ |- _ => subst x end;
+  match goal with
+  | e : u16 ?d ?A = 0, n : u16 ?d ?B <> 0 |- _ => exfalso; apply n; rewrite <- e; f_equal; lia
+  | e : u16 ?d ?A = 0 |- context [u16 ?d ?B] => replace B with A by lia; rewrite e
+  | _ => idtac
+  end.
+
+Theorem view_if_vendor_data d c : bytes_ok d -> zlen d < 2 ^ 64 -> valid_if d = true -> code_InterfacePayload_getVendorData = Some c ->
+  ceval gen_reads d (penv d) c = Ok (if u16 d (38 + if_cntv d) =? 0 then -1 else 38 + if_cntv d + 2).
+Proof.
+  intros Hd Hn Hv. destruct (valid_if_facts d Hd Hv) as (F1 & F2 & F3 & F4 & F5). unfold if_cntv, if_cnt in *.
+  pose proof (u16_range d 36 Hd).
+  t2_open code_InterfacePayload_getVendorData; (unfold penv; t2_solve Hd; try (timeout 120 same_word)).
+Qed.
 
 (* what the four accessors return is what the model's view reports (elements 10-13 of view_if), hence - by C03's view theorem - in bounds *)
 Lemma view_if_model d w : bytes_ok d -> valid_if d = true -> view_if d = Some w ->
